@@ -1,9 +1,12 @@
 mod arrgen;
 mod c01;
 mod c02;
+mod c04;
 mod c05;
 mod c06;
 mod c07;
+mod c08;
+mod zoo;
 mod c09;
 mod c16;
 mod tracegen;
@@ -56,9 +59,11 @@ fn main() {
         "C16" => c16::run(&mut ctx),
         "C17" => c17::run(&mut ctx),
         "C18" => c18::run(&mut ctx),
+        "C04" => c04::run(&mut ctx),
         "C05" => c05::run(&mut ctx),
         "C06" => c06::run(&mut ctx),
         "C07" => c07::run(&mut ctx),
+        "C08" => c08::run(&mut ctx),
         "C09" => c09::run(&mut ctx),
         "C10" => c10::run(&mut ctx),
         "C11" => c11::run(&mut ctx),
